@@ -44,6 +44,8 @@ def gen_config(rng, pipe_in=None):
     # DEBUG_SET_PIPE_* force piping by being set, whatever their value; set next to a real pipe they change nothing
     cfg["pipe_env_value"] = rng.choice(["1", "1", "0", "", "yes", "false"])
     cfg["pipe_env_also"] = rng.chance(20)
+    # when the script line arrives (simulated milliseconds after start-up); reading it must simply wait
+    cfg["stdin_delay_ms"] = rng.weighted([(6, 0), (1, 1), (1, 1999), (1, 2001), (1, 10000), (1, 3600000)])
     cfg["quiet"] = rng.chance(30)
     cfg["debug"] = [a for a in DEBUG_AREAS if rng.chance(30)]
     cfg["debug_env"] = {}
@@ -122,6 +124,7 @@ def gen(rng, tier, idx):
         return gen_known(rng)
     scn = workloads.session_scenario(rng, purpose="noninteractive")
     scn["observe"] = True       # the final stack is read from the `stack` observer
+    scn.pop("discard_stdout", None)      # this check reads what the tool prints
     kind = rng.weighted([(50, "ok"), (25, "fail"), (25, "throw")])
     if scn.get("script") is not None and kind != "ok":
         toks = G.failing_op(rng) if kind == "fail" else G.throwing_op(rng)
@@ -169,7 +172,7 @@ def shrink_extra(scn, still, budget):
     out = workloads.shrink_script(scn, still, budget)
     # simplify the configurations
     for key in ("cfg", "cfg2"):
-        for fld, val in (("quiet", False), ("debug", []), ("debug_env", {}), ("pipe_env_also", False), ("pipe_env_value", "1")):
+        for fld, val in (("quiet", False), ("debug", []), ("debug_env", {}), ("pipe_env_also", False), ("pipe_env_value", "1"), ("stdin_delay_ms", 0)):
             if budget[0] <= 0:
                 break
             if out[key].get(fld) != val:
@@ -217,6 +220,8 @@ def world_for(scn, cfg, stdin_fault=None, verbose=False):
     s2["env"] = env
     s2["script_on_stdin"] = pipe_in
     w = session.build_world(s2, sched=[], faults=False)
+    if pipe_in and cfg.get("stdin_delay_ms"):
+        w["stdin_delay_ms"] = cfg["stdin_delay_ms"]
     if pipe_in:
         script_txt = "0x" + (scn.get("script") or "") if scn.get("script") is not None else ""
         if scn.get("script_text") is not None:
